@@ -96,7 +96,7 @@ def build(family, report):
     G("num_converged", sbase + t_nc + s_nc.harness("h", A + "  Scalar tol = nondet_Scalar();", "S, tol"), "h", "num_converged",
       [hdr + ":num_converged"], ["C01", "C05", "C13"])
     G("retrieve_ritzpair", sbase + t_rr + s_rr.harness("h", A + "  SortRule selection = nondet_int();", "S, selection"), "h", "retrieve_ritzpair",
-      [hdr + ":retrieve_ritzpair"], ["C01", "C04", "C05", "C13", "C14"], expect=["loop_invariant_step", "Eigen index assertion"],
+      [hdr + ":retrieve_ritzpair"], ["C01", "C04", "C05", "C12", "C13", "C14"], expect=["loop_invariant_step", "Eigen index assertion"],
       note="argsort and the dense eigen-decomposition replaced by their contracts")
     G("sort_ritzpair", sbase + t_sr + s_sr.harness("h", A + "  SortRule sort_rule = nondet_int();", "S, sort_rule"), "h", "sort_ritzpair",
       [hdr + ":sort_ritzpair"], ["C01", "C05", "C12", "C13", "C18"], expect=["loop_invariant_step"])
